@@ -365,6 +365,22 @@ func (e *Enc) havocLoc(env *Env, loc string, con *Contract) {
 		e.setVar("G|"+strings.TrimPrefix(loc, "ghost_"), e.freshT("g_"+loc, SBV64))
 		return
 	}
+	if strings.HasPrefix(loc, "global:") {
+		name := strings.TrimPrefix(loc, "global:")
+		if env.pkg != nil {
+			if o, ok := env.pkg.Scope().Lookup(name).(*types.Var); ok {
+				if g := e.L.globalByObj(o); g != nil {
+					gt := deref(g.Type())
+					v := e.freshVal(gt, "hvg_"+name)
+					e.assumeLoaded(gt, v)
+					e.storeGlobal(g, nil, gt, v)
+					return
+				}
+			}
+		}
+		e.errs = append(e.errs, fmt.Sprintf("%s: modifies %s: no such package variable", con.Key, loc))
+		return
+	}
 	target := loc
 	all := false
 	if strings.HasPrefix(loc, "*") {
